@@ -32,8 +32,10 @@
 (*                          never wraps; here it would wrap modulo 2^64.    *)
 (*                          The last block may be partial (keystream        *)
 (*                          truncated); Len(result) = Len(m).               *)
+(* TLC!TLCEval(v) = v; it only makes TLC evaluate an accumulator eagerly    *)
+(* instead of piling up one lazy thunk per iteration (stack depth).         *)
 (***************************************************************************)
-EXTENDS Words
+EXTENDS Words, TLC
 
 \* s.3  z1 = y1 xor ((y0+y3) <<< 7),  z2 = y2 xor ((z1+y0) <<< 9),
 \*      z3 = y3 xor ((z2+z1) <<< 13), z0 = y0 xor ((z3+z2) <<< 18)
@@ -98,6 +100,6 @@ RECURSIVE SalsaXorR(_,_,_,_,_,_)
 SalsaXorR(key, nonce, ctr, rounds, m, acc) ==
   IF Len(m) = 0 THEN acc
   ELSE SalsaXorR(key, nonce, WAddNat(ctr, 1), rounds, Drop(m, 64),
-                 acc \o XorBytes(Take(m, 64), SalsaBlock(key, nonce, ctr, rounds)))
+                 TLCEval(acc \o XorBytes(Take(m, 64), SalsaBlock(key, nonce, ctr, rounds))))
 SalsaXor(key, nonce, ctr0, rounds, m) == SalsaXorR(key, nonce, ctr0, rounds, m, <<>>)
 =============================================================================
